@@ -418,13 +418,17 @@ func writeEvidence(p *Property, env *Env, r *Report, wall time.Duration) {
 	for k, v := range r.Extra {
 		cov[k] = v
 	}
+	assumptions := p.Assumptions
+	if assumptions == nil {
+		assumptions = []string{}
+	}
 	ev := map[string]interface{}{
 		"property_id": p.ID,
 		"tier":        env.Tier,
 		"seed":        env.Seed,
 		"level":       p.Level,
 		"coverage":    cov,
-		"assumptions": p.Assumptions,
+		"assumptions": assumptions,
 		"wall_s":      wall.Seconds(),
 		"violations":  len(r.Violations),
 	}
